@@ -51,6 +51,8 @@ def base_outcome(case, res, extra_key=''):
         fired['backend_alias_thread'] = 1
     if pst.get('batched'):
         fired['batch_map_with_workers'] = 1
+    if case.get('via_copy'):
+        fired['consumed_through_a_copy'] = 1
     return {
         'violations': [],
         'nontrivial': nontrivial,
